@@ -52,6 +52,10 @@ def items(tier, seed):
             L = L[:1] + L[2:4]
         for n in L:
             out.append(("magic", fmt, n, tier))
+    # Mach-O with exactly one load command of <= 16 bytes declared: the command type and size stay symbolic
+    for csz in (0, 8, None):
+        out.append(("focus", "macho64", 56, "one-load-command", csz, tier))
+        out.append(("focus", "macho32", 52, "one-load-command", csz, tier))
     return out
 
 
@@ -62,14 +66,25 @@ def classes():
     return {"Elf": elf.Elf, "PE": pe.PE, "MachO": macho.MachO, "COFF": coff.COFF, "HEX": HEX, "SREC": SREC, "shellcode": SC.shellcode}
 
 
-def make_fn(n, magic):
+def make_fn(n, magic, fixed=None, ctor=None, ctor_errors=()):
+    """fixed: {offset: byte} further bytes assumed (focus on one region of the format, e.g. a single load command)"""
     def fn(E):
         bs = E.sym_bytes("b", n)
         content = list(bs)
-        for k, v in enumerate(magic[:n]):
+        for k, v in list(enumerate(magic[:n])) + sorted((fixed or {}).items()):
+            if k >= n:
+                continue
             E.assume(symx.zterm(content[k], 8) == v)
             content[k] = v
         f = symx.SymFile(content)
+        if ctor is not None:
+            # the format's own constructor, as read_program calls it: its format errors are what read_program catches,
+            # anything else escapes read_program too (confirmed on the witness through read_program itself)
+            try:
+                p = ctor(SC.DataIO(f))
+            except ctor_errors:
+                return "shellcode", content
+            return type(p).__name__, content
         p = SC.read_program(f)
         return type(p).__name__, content
     return fn
@@ -101,13 +116,32 @@ def run_item(item):
     if item[0] == "free":
         _, n, tier = item
         magic, label = b"", "free:%d" % n
+    elif item[0] == "focus":
+        _, fmt, n, what, csz, tier = item
+        magic, label = MAGICS[fmt], "%s:%d:%s:cmdsize=%s" % (fmt, n, what, "any" if csz is None else csz)
+        # cputype x86(_64), cpusubtype 3, filetype MH_EXECUTE, ncmds = 1, sizeofcmds = 16; the load command itself is symbolic
+        fixed = {4: 7, 5: 0, 6: 0, 7: 1 if fmt == "macho64" else 0, 8: 3, 9: 0, 10: 0, 11: 0, 12: 2, 13: 0, 14: 0, 15: 0,
+                 16: 1, 17: 0, 18: 0, 19: 0, 20: 16, 21: 0, 22: 0, 23: 0}
+        if csz is not None:
+            h = 32 if fmt == "macho64" else 28
+            fixed.update({h + 4: csz, h + 5: 0, h + 6: 0, h + 7: 0})
     else:
         _, fmt, n, tier = item
         magic, label = MAGICS[fmt], "%s:%d" % (fmt, n)
     cls = classes()
+    from amoco.system import macho as _macho
+    _saved_table = _macho.CMD_TABLE
     with symx.injected(extra={"struct": symstruct.module}):
-        E = symx.Engine(timeout_ms=20000, caps=dict(index=3, seek=3, hash=6, format=3, str=3), max_decisions=6000)
-        paths = E.explore(make_fn(n, magic), max_paths=3000 if tier == "quick" else 20000, deadline=time.time() + (50 if tier == "quick" else 600))
+        # the load-command dispatch table is looked up with a symbolic key: fork over its existing keys
+        _macho.CMD_TABLE = symx.SymDict(_saved_table)
+        try:
+            E = symx.Engine(timeout_ms=20000, caps=dict(index=3, seek=3, hash=6, format=3, str=3), max_decisions=6000)
+            ctor, errs = None, ()
+            if item[0] == "focus":
+                ctor, errs = _macho.MachO, (_macho.StructureError, _macho.MachOError)
+            paths = E.explore(make_fn(n, magic, fixed if item[0] == "focus" else None, ctor, errs), max_paths=3000 if tier == "quick" else 20000, deadline=time.time() + (50 if tier == "quick" else 600))
+        finally:
+            _macho.CMD_TABLE = _saved_table
     res["explorations"] += 1
     res["states"] += len(paths)
     res["transitions"] += E.stats["forks"]
